@@ -121,6 +121,9 @@ var quiet = doubles.NewLogger()
 // windowHits counts how often the loop was seen waiting inside the completion window (evidence only).
 var windowHits int32
 
+// stuckCases counts cases in which the loop stopped consuming inputs.
+var stuckCases int32
+
 func run(rids [][]byte, evs []ev) map[int]*inst {
 	id := []byte("verif-c13-node-00001")
 	pd := doubles.NewP2P(id, 0)
@@ -266,6 +269,16 @@ func oracle(rids [][]byte, evs []ev, insts map[int]*inst) string {
 		ks = append(ks, k)
 	}
 	sort.Ints(ks)
+	// each delivery of a peer is handed over at most once, to whomever
+	handed := map[int]int{}
+	for _, k := range ks {
+		for _, g := range insts[k].got {
+			if prev, ok := handed[g.tag]; ok && prev != k {
+				return fmt.Sprintf("duplicate: arrival %d was handed to instance %d and to instance %d", g.tag, prev, k)
+			}
+			handed[g.tag] = k
+		}
+	}
 	for _, k := range ks {
 		in := insts[k]
 		seen := map[int]bool{}
@@ -382,6 +395,11 @@ func exec(line string) (res h.Result) {
 		}
 		return
 	}
+	if atomic.LoadInt32(&stuckCases) >= 3 {
+		// every stuck case costs 5 s and leaks a blocked loop: three replays are enough
+		res.Impl = "not-run"
+		return
+	}
 	ch := make(chan map[int]*inst, 1)
 	before := atomic.LoadInt32(&windowHits)
 	go func() { ch <- run(rids, evs) }()
@@ -402,6 +420,7 @@ func exec(line string) (res h.Result) {
 	case <-time.After(5 * time.Second):
 		// the loop did not take an input within 5 s: it is stuck in a send nobody will receive
 		res.Impl = "stuck"
+		atomic.AddInt32(&stuckCases, 1)
 		res.Oracle = "collector-blocked: the loop stopped consuming its inputs (a send to a cancelled or unregistered request blocks it); every other request is starved"
 	}
 	return
